@@ -101,6 +101,16 @@ pub fn decode_strings(ctx: &Ctx, rng: &mut impl RngCore, nvalid: usize, nrand: u
             }
         }
     }
+    // near-valid rejects: non-square discriminant, yet the candidate point computed from the
+    // returned sqrt(zeta * ratio) lies on the curve (a decoder validating coordinates instead of the
+    // squareness flag accepts exactly these); plus their aliases and negations
+    for s in crate::eng::decode_nonsquare_oncurve(ctx, rng) {
+        out.push((to_le(&s, 32), "nonsquare-candidate-on-curve"));
+        out.push((to_le(&c.f.neg(&s), 32), "nonsquare-candidate-on-curve"));
+        if &(&s + q) < &top {
+            out.push((to_le(&(&s + q), 32), "nonsquare-candidate-on-curve"));
+        }
+    }
     for _ in 0..nrand {
         out.push((rand_bytes(rng, 32), "random"));
         let mut v = rand_bytes(rng, 32);
@@ -161,6 +171,13 @@ fn c01_backward(ctx: &Ctx, rec: &mut Rec, s: &[u8], class: &str) {
         Err(p) => rec.violation(format!("{P}:backward:panic"), format!("decode/encode panicked: {p}"), json!({"bytes": hx(s)})),
         Ok(Err(_)) => {
             rec.count("bwd_rejected", 1);
+            // the specification decodes this string: it is the encoding of a group element, so the
+            // forward direction must hold for that element (present it through the coordinate hook)
+            if let Ok(m) = &spec {
+                rec.count("bwd_rejected_but_spec_valid", 1);
+                let se = SE { l: from_pt(c, m), m: m.clone(), class: "spec-decoded" };
+                c01_forward(ctx, rec, &se);
+            }
         }
         Ok(Ok((bytes, e))) => {
             rec.count("bwd_accepted", 1);
@@ -183,7 +200,7 @@ pub fn run_c01(ctx: &Ctx, rec: &mut Rec) {
     for cl in ["identity", "identity'", "G", "other-rep", "rescaled", "elligator", "random-decode", "kG", "program-register"] {
         rec.declare_class(&format!("fwd:{cl}"));
     }
-    for cl in ["valid", "alias s+kq", "q-s", "bit-flip", "boundary", "random", "produced-encoding", "engineered-sqrt-exponent", "q-delta"] {
+    for cl in ["valid", "alias s+kq", "q-s", "bit-flip", "boundary", "random", "produced-encoding", "engineered-sqrt-exponent", "q-delta", "nonsquare-candidate-on-curve"] {
         rec.declare_class(&format!("bwd:{cl}"));
     }
     // forward on the zoo (all presentations) and on program registers
@@ -314,7 +331,7 @@ pub fn run_c02(ctx: &Ctx, rec: &mut Rec) {
     for e in &eps {
         rec.declare_form(e.name);
     }
-    for cl in ["valid", "alias s+kq", "q-s", "bit-flip", "top-bits", "boundary", "q+delta", "q-delta", "engineered-sqrt-exponent", "random", "random-masked-even", "length"] {
+    for cl in ["valid", "alias s+kq", "q-s", "bit-flip", "top-bits", "boundary", "q+delta", "q-delta", "engineered-sqrt-exponent", "nonsquare-candidate-on-curve", "random", "random-masked-even", "length"] {
         rec.declare_class(cl);
     }
     let mut srng = rng_for(ctx.seed, P, 999, 0);
@@ -330,6 +347,28 @@ pub fn run_c02(ctx: &Ctx, rec: &mut Rec) {
     }
     for len in [100usize, 128, 200, 1000] {
         strings.push((vec![0u8; len], "length"));
+    }
+    // lengths that alias 32 under a truncating cast or a masked comparison (32 + k*2^8, 32 + k*2^16,
+    // 32 + 2^k), neighbours of powers of two, and multiples of 32; content = a valid encoding followed
+    // by zeros / by further valid encodings, so that a decoder that looks at a prefix would accept
+    {
+        let mut lens: Vec<usize> = vec![31, 33, 63, 64, 65, 96, 255, 256, 257];
+        for k in 1..=8usize {
+            lens.push(32 + 256 * k);
+        }
+        for k in 6..=17usize {
+            lens.push(32 + (1usize << k));
+            lens.push(1usize << k);
+        }
+        lens.push(32 + 65536);
+        lens.push(32 + 2 * 65536);
+        for len in lens {
+            let mut v = to_le(&b(8), 32);
+            v.resize(len, 0);
+            strings.push((v, "length"));
+            let w: Vec<u8> = to_le(&b(8), 32).iter().cycle().take(len).copied().collect();
+            strings.push((w, "length"));
+        }
     }
     rec.count("strings", strings.len() as u64);
     par(rec, |w, n, rec| {
@@ -512,6 +551,21 @@ pub fn encoders() -> Vec<Encoder> {
             e.serialize_compressed(&mut o).unwrap();
             o
         } });
+        // serialisation modes that are unimplemented!() today: a panic hands out nothing and is only
+        // counted; if a mode ever returns bytes, they must be the canonical encoding like everything else
+        fn opt(f: impl FnOnce() -> Vec<u8> + std::panic::UnwindSafe) -> Vec<u8> {
+            std::panic::catch_unwind(f).unwrap_or_else(|_| b"UNIMPLEMENTED".to_vec())
+        }
+        v.push(Encoder { name: "Element::serialize_uncompressed", f: |e| { let e = *e; opt(move || { let mut o = Vec::new(); e.serialize_uncompressed(&mut o).unwrap(); o }) } });
+        v.push(Encoder { name: "AffinePoint::serialize_uncompressed", f: |e| { let a = e.into_affine(); opt(move || { let mut o = Vec::new(); a.serialize_uncompressed(&mut o).unwrap(); o }) } });
+        v.push(Encoder { name: "Encoding::serialize_uncompressed", f: |e| { let c = e.vartime_compress(); opt(move || { let mut o = Vec::new(); c.serialize_uncompressed(&mut o).unwrap(); o }) } });
+        v.push(Encoder { name: "AffinePoint::serialize_with_mode(No) + uncompressed_size", f: |e| { let a = e.into_affine(); opt(move || {
+            let n = a.uncompressed_size();
+            let mut o = Vec::new();
+            a.serialize_with_mode(&mut o, ark_serialize::Compress::No).unwrap();
+            if n != o.len() { return format!("uncompressed_size() = {n} but {} bytes were written", o.len()).into_bytes(); }
+            o
+        }) } });
         v.push(Encoder { name: "Debug for Element (hex)", f: |e| unhex(&format!("{e:?}"), "decaf377::Element(") });
         v.push(Encoder { name: "Display for Element (hex)", f: |e| unhex(&format!("{e}"), "decaf377::Element(") });
         v.push(Encoder { name: "Debug for AffinePoint (hex)", f: |e| unhex(&format!("{:?}", e.into_affine()), "decaf377::AffinePoint(") });
@@ -545,6 +599,7 @@ fn c03_one(ctx: &Ctx, rec: &mut Rec, encs: &[Encoder], e: &SE) {
         let l = e.l;
         match guarded(|| (en.f)(&l)) {
             Err(p) => rec.violation(format!("{P}:{}:panic", en.name), format!("{} panicked: {p}", en.name), json!({"element": el_json(&e.l), "class": e.class})),
+            Ok(bytes) if &bytes[..] == b"UNIMPLEMENTED" => rec.count("encoder_mode_unimplemented", 1),
             Ok(bytes) => {
                 if bytes[..] != want[..] {
                     rec.violation(format!("{P}:{}:not-spec-encoding", en.name), format!("{} gives {} but encodeSpec gives {} (class {})", en.name, hx(&bytes), hx(&want), e.class), json!({"element": el_json(&e.l), "model": pt_json(&e.m), "class": e.class}));
